@@ -293,17 +293,25 @@ def _meta_case(args):
                              == sorted((canon_lab(y, unordered) for y in s1l), key=json.dumps))
                 if v0l != v1l or n0 != n1 or not same_sets:
                     fail({"orig": lc, "twin": t, "pmap": pmap, "fmap": {str(a): b for a, b in fmap.items()}}, f"{'unordered' if unordered else 'ordered'} solver: reordering children / renaming families changed the result: {v0l},{n0} vs {v1l},{n1}" + ("" if same_sets else " (the sets differ)"), {})
+                # monotonicity on EVERY labelled input (one solver run): one unit cost raised, the loss costs twice as often as the
+                # others; the twin must stay inside the region where the solver is exact (the unordered one has the wider region)
+                kks = [rng.choice(["spe", "dup", "hgt", "floss", "sloss"])]
+                if unordered:
+                    kks = sorted(set(kks + ["sloss", "floss"]))     # both loss costs, each on its own: they enter the unordered table separately
+                for kk in kks:
+                    c2 = dict(lc["costs"])
+                    if c2[kk] != R.INF:
+                        c2[kk] += rng.randint(1, 2)
+                    if (R.ucoherent(c2) if unordered else R.coherent(c2)):
+                        v4l, _ = labelled_result(dict(lc, costs=c2), unordered)
+                        if v0l is not None and (v4l is None or num(v4l) < num(v0l)):
+                            fail({"orig": lc, "twin": dict(lc, costs=c2)}, f"{'unordered' if unordered else 'ordered'} solver: raising a unit cost lowered the minimum: {v0l} -> {v4l}", {})
                 if not full:
                     continue
                 k = rng.choice(DYADIC)
                 v2l, n2 = labelled_result(dict(lc, costs=scale(lc["costs"], k)), unordered)
                 if (v0l is None) != (v2l is None) or (v0l is not None and (num(v2l) != k * num(v0l) or n2 != n0)):
                     fail({"orig": lc}, f"{'unordered' if unordered else 'ordered'} solver: scaling by {k}: {v0l},{n0} -> {v2l},{n2}", {})
-                c2 = raise_one(lc["costs"], rng)
-                if R.coherent(c2):
-                    v4l, _ = labelled_result(dict(lc, costs=c2), unordered)
-                    if v0l is not None and (v4l is None or num(v4l) < num(v0l)):
-                        fail({"orig": lc, "twin": dict(lc, costs=c2)}, f"{'unordered' if unordered else 'ordered'} solver: raising a unit cost lowered the minimum: {v0l} -> {v4l}", {})
                 v3l, n3 = labelled_result(outgroup(lc), unordered)
                 # F-OUTGROUP-TIES: with floss = 0 the outgroup may ADD optima (those using the new root); it never removes one
                 if v3l != v0l or (n3 != n0 if lc["costs"]["floss"] > 0 else n3 < n0):
